@@ -614,6 +614,89 @@ theorem C19_dfa_corrupt_symbol (d : DFA σ α) (wf : d.WF) (q : σ) (hq : q ∈ 
   · right; rw [DFA.rules_stage]; decide
   · right; rw [DFA.rules_stage]; decide
 
+/-! ### row- and entry-level operators for the NFA (with the two field-level ones above: all five rules) -/
+
+/-- NFA / the row of the initial state removed (more than one state) → `MissingStateError`
+("initial state without transitions"). -/
+theorem C19_nfa_corrupt_initial_row (n : NFA σ α) (wf : n.WF) (hlen : 1 < n.states.length) :
+    ({ n with trans := n.trans.filter (fun kv => decide (kv.1 ≠ n.init)) } : NFA σ α).validate =
+      .error (.lib .missingStateError) := by
+  have hno := (NFA.wf_iff n).mp wf
+  have hv : NFA.rules.Violates ({ n with trans := n.trans.filter (fun kv => decide (kv.1 ≠ n.init)) } : NFA σ α)
+      .initialNoRow := by
+    refine ⟨?_, hlen⟩
+    simp only [akeys, List.mem_map, List.mem_filter, decide_eq_true_eq, not_exists, not_and]
+    intro kv hkv hk
+    exact hkv.2 hk
+  refine NFA.rules_correct.corrupt_raises _ .initialNoRow hv ?_
+  intro r' hv'
+  cases r'
+  · exfalso
+    obtain ⟨kv, hkv, a, ha, hna⟩ := hv'
+    exact hna (wf.symsOk kv (List.mem_filter.mp hkv).1 a ha)
+  · exfalso
+    obtain ⟨kv, hkv, ts, hts, q, hq, hnq⟩ := hv'
+    exact hnq (wf.tgtOk kv (List.mem_filter.mp hkv).1 ts hts q hq)
+  · exact absurd hv' (hno .badInitial)
+  · exact Or.inl rfl
+  · right; rw [NFA.rules_stage]; decide
+
+/-- NFA / `transitions[q][a] = ts` with a non-state among `ts`, `a` an input symbol or `""`, in a
+valid NFA → `InvalidStateError` ("unknown end state"). -/
+theorem C19_nfa_corrupt_end_state (n : NFA σ α) (wf : n.WF) (q : σ) (hq : q ∈ akeys n.trans)
+    (a : Option α) (ha : ∀ x, a = some x → x ∈ n.syms) (ts : List σ) (t : σ) (ht : t ∈ ts) (hnt : t ∉ n.states) :
+    (NFA.setEntry n q a ts).validate = .error (.lib .invalidStateError) := by
+  have hno := (NFA.wf_iff n).mp wf
+  have hv : NFA.rules.Violates (NFA.setEntry n q a ts) .unknownEndState := by
+    obtain ⟨kv, hkv, hk⟩ := List.mem_map.mp hq
+    refine ⟨(kv.1, ainsert a ts kv.2), ?_, ts, ?_, t, ht, hnt⟩
+    · simp only [NFA.setEntry, List.mem_map]
+      exact ⟨kv, hkv, by simp [hk]⟩
+    · exact List.mem_map.mpr ⟨(a, ts), ainsert_mem_self a ts kv.2, rfl⟩
+  refine NFA.rules_correct.corrupt_raises _ .unknownEndState hv ?_
+  intro r' hv'
+  cases r'
+  · -- unknownSymbol (same stage, other class): the new entry uses a legal symbol
+    exfalso
+    obtain ⟨kv', hkv', b, hb, hnb⟩ := hv'
+    obtain ⟨kv, hkv, hent⟩ := NFA.setEntry_rows n q a ts kv' hkv'
+    obtain ⟨e, he, hbe⟩ := List.mem_map.mp hb
+    rcases hent e he with rfl | he'
+    · exact hnb (ha b hbe)
+    · exact hnb (wf.symsOk kv hkv b (List.mem_map.mpr ⟨e, he', hbe⟩))
+  · exact Or.inl rfl
+  · exact Or.inl rfl
+  · right; rw [NFA.rules_stage]; decide
+  · exact Or.inl rfl
+
+/-- NFA / `transitions[q][a] = ts` with `a` neither an input symbol nor `""`, `ts` states, in a
+valid NFA → `InvalidSymbolError` ("unknown transition symbol"). -/
+theorem C19_nfa_corrupt_symbol (n : NFA σ α) (wf : n.WF) (q : σ) (hq : q ∈ akeys n.trans)
+    (a : α) (ha : a ∉ n.syms) (ts : List σ) (hts : ∀ t ∈ ts, t ∈ n.states) :
+    (NFA.setEntry n q (some a) ts).validate = .error (.lib .invalidSymbolError) := by
+  have hno := (NFA.wf_iff n).mp wf
+  have hv : NFA.rules.Violates (NFA.setEntry n q (some a) ts) .unknownSymbol := by
+    obtain ⟨kv, hkv, hk⟩ := List.mem_map.mp hq
+    refine ⟨(kv.1, ainsert (some a) ts kv.2), ?_, a, ?_, ha⟩
+    · simp only [NFA.setEntry, List.mem_map]
+      exact ⟨kv, hkv, by simp [hk]⟩
+    · exact List.mem_map.mpr ⟨(some a, ts), ainsert_mem_self (some a) ts kv.2, rfl⟩
+  refine NFA.rules_correct.corrupt_raises _ .unknownSymbol hv ?_
+  intro r' hv'
+  cases r'
+  · exact Or.inl rfl
+  · -- unknownEndState (same stage, other class): the new entry leads to states
+    exfalso
+    obtain ⟨kv', hkv', us, hus, p, hp, hnp⟩ := hv'
+    obtain ⟨kv, hkv, hent⟩ := NFA.setEntry_rows n q (some a) ts kv' hkv'
+    obtain ⟨e, he, hue⟩ := List.mem_map.mp hus
+    rcases hent e he with rfl | he'
+    · exact hnp (hts p (by rw [← hue] at hp; exact hp))
+    · exact hnp (wf.tgtOk kv hkv us (List.mem_map.mpr ⟨e, he', hue⟩) p hp)
+  · right; rw [NFA.rules_stage]; decide
+  · right; rw [NFA.rules_stage]; decide
+  · right; rw [NFA.rules_stage]; decide
+
 /-! ## C. tie to the source: raise sites, order of checks, literals -/
 
 /-- Which exception class every validation method raises, in source order (regenerated from
